@@ -6,7 +6,12 @@ open Lean NiftyVerif.Proto NiftyVerif.Heap
 def parseOp (j : Json) : Option Op := do
   let k ← fStr? j "op"
   match k with
-  | "newArr" => some (.newArr (← fIntList? j "vals"))
+  | "newArr" =>      -- "how" >= 2: an owning instance of an ndarray subclass
+    let vals ← fIntList? j "vals"
+    match fNat? j "how" with
+    | some h => if h ≥ 2 then some (.newSub vals) else some (.newArr vals)
+    | none => some (.newArr vals)
+  | "asArray" => some (.asArray (← fNat? j "a"))
   | "sliceArr" => some (.sliceArr (← fNat? j "a") (← fNat? j "lo") (← fNat? j "hi"))
   | "writeArr" => some (.writeArr (← fNat? j "a") (← fNat? j "i") (← fInt? j "v"))
   | "setFlag" => some (.setFlag (← fNat? j "a") (← fBool? j "b"))
@@ -62,7 +67,12 @@ def runTrace (cfg : Cfg) : State → List Op → List Json → List Json
     let e := eff cfg s op
     let s' := apply s e
     let out := match e.raised with | some er => errName er | none => "ok"
-    let rec_ := jObj ([("out", Json.str out), ("ret", refJson e.ret), ("guard", Json.bool (guard s op))] ++ snapshot s')
+    -- class tag of the returned ndarray object, for the operations that create or pass on source arrays
+    let rex : Json := match op, e.ret with
+      | .newArr _, Ref.arr i | .newSub _, Ref.arr i | .sliceArr _ _ _, Ref.arr i | .asArray _, Ref.arr i =>
+        match s'.arrs[i]? with | some ao => Json.bool ao.exact | none => Json.null
+      | _, _ => Json.null
+    let rec_ := jObj ([("out", Json.str out), ("ret", refJson e.ret), ("rexact", rex), ("guard", Json.bool (guard s op))] ++ snapshot s')
     runTrace cfg s' rest (rec_ :: acc)
 
 /-- {"cfg":"fixed"|"asFound","ops":[…]} -> {"steps":[{out,ret,guard,fields,arrs,aflags,wflags,warr,fwrap,ops}…]} -/
